@@ -287,10 +287,11 @@ def verify_row(row, rnd, cache):
     sig = cache[ck]
     name, rest = split_sig(sig)
     if row['name'] == 'othersup':
-        others = sorted(a for a in p['k'].all_sig_algorithms if a != sig_alg
-                        and a in (b'rsa-sha2-256', b'rsa-sha2-512', b'ssh-rsa',
-                                  b'ssh-rsa-sha256@ssh.com',
-                                  b'ssh-rsa-sha512@ssh.com'))
+        # another algorithm the key supports = a name with a different hash
+        # (ssh-rsa-sha256@ssh.com etc. are aliases of the same algorithm)
+        mine = RSA_HASH[sig_alg]
+        others = sorted(a for a in p['k'].all_sig_algorithms
+                        if a in RSA_HASH and RSA_HASH[a] != mine)
         sig = S(rnd.choice(others)) + rest
     elif row['name'] == 'unsup':
         sig = S(other_family_name(kalg)) + rest
@@ -308,6 +309,12 @@ def verify_row(row, rnd, cache):
     except Exception as exc:            # pylint: disable=broad-except
         return False, exc
 
+
+RSA_HASH = {b'rsa-sha2-256': 'sha256', b'rsa-sha2-512': 'sha512',
+            b'ssh-rsa': 'sha1', b'ssh-rsa-sha224@ssh.com': 'sha224',
+            b'ssh-rsa-sha256@ssh.com': 'sha256',
+            b'ssh-rsa-sha384@ssh.com': 'sha384',
+            b'ssh-rsa-sha512@ssh.com': 'sha512'}
 
 MASKS_QUICK = (0x01,)
 MASKS_THOROUGH = (0x01, 0x80, 0xff)
